@@ -438,4 +438,38 @@ def C20(tier):
                 bounds=dict(configurations=['%s %s' % (r, sorted(o.items())) for r, o in cfgs], candidates=3, ballots_max=4))
 
 
+def C03(tier):
+    quick = tier != 'thorough'
+    B = 300 if quick else 1500
+    jobs = []
+    # (1) real vs real: the parametric rule configured with the reference rule's parameters
+    for seats in (1, 2):
+        jobs.append(djob('opts', 'wigm', {}, 3, seats, 3, 6 if quick else 8, optionsA=dict(rule='wigm', arithmetic='fixed', precision=4),
+                         optionsB=dict(rule='wigm-prf'), budget=B, cfg='wigm fixed p=4 == wigm-prf'))
+    jobs.append(djob('opts', 'wigm', {}, 4, 3, 2, 5 if quick else 6, optionsA=dict(rule='wigm', arithmetic='fixed', precision=4),
+                     optionsB=dict(rule='wigm-prf'), budget=B, cfg='wigm fixed p=4 == wigm-prf', weight=5))
+    # (2) reference transcriptions run in the same engine, symbolic tie order
+    for rule in ('wigm-prf', 'wigm-prf-batch', 'scotland', 'qpq', 'meek-prf'):
+        slow = rule in ('qpq', 'meek-prf')
+        for seats in (1, 2):
+            jobs.append(grid.job(rule, {}, 3, seats, 3, (4 if slow else 6) + (0 if quick else 1), ['C03'], B, symtie=True, weight=4 if slow else 2))
+        if not slow:
+            for seats in ((2, 3) if quick else (1, 2, 3)):
+                jobs.append(grid.job(rule, {}, 4, seats, 2, 5 if quick else 6, ['C03'], B, symtie=True, weight=5))
+        else:
+            jobs.append(grid.job(rule, {}, 4, 2, 2 if rule == 'qpq' else 1, 4 if rule == 'qpq' else 5, ['C03'], B, symtie=True, weight=6))
+        jobs.append(grid.job(rule, {}, 4, 2, 2, 5 if not slow else 4, ['C03'], B, withdrawn=[2], symtie=True, weight=3))
+    return dict(jobs=jobs, level_text='differential bounded symbolic execution: (1) the parametric rule configured like a reference rule against that reference rule, record by record; '
+                '(2) a clause-by-clause transcription of the rule text quoted in the rule module (refs/*.py, under 150 lines each, scaled integers, explicit truncation) run in the same engine '
+                'on the same symbolic ballots and tie order; stage lists (elected / excluded / surplus transferred, order, quota, every tally after every stage to the last digit) compared '
+                'on every feasible path. Where droop is known to depart from the text the reference has a named switch; the check reports the departure as a known finding and anything else as a violation',
+                assumptions=COUNT_ASSUME + ['references exist for wigm-prf, wigm-prf-batch, scotland, meek-prf, qpq (Minneapolis and CfER: see not-covered note in DESIGN.md); the transcriptions are validated by the run itself: '
+                                            'every disagreement is replayed concretely', 'why the last candidates are declared elected (rule 47 vs 52; B.1 vs C) is not compared',
+                                            'QPQ: the quoted text is silent on the restart after an exclusion; the reference restarts as droop does',
+                                            'Scottish rule 49(2)/51(2): when the most recent unequal stage separates only some of the tied candidates the reference keeps looking back over the whole tied set, as droop does'],
+                require_reach=['reference-run', 'matches-text', 'pair-compared'],
+                bounds=dict(candidates=[3, 4], ballots_max=6 if quick else 8, references=['refs/wigm_prf.py', 'refs/scotland.py', 'refs/meek_prf.py', 'refs/qpq.py'],
+                            symbolic_tie_order=True))
+
+
 REGISTRY = {k: v for k, v in globals().items() if k[0] == 'C' and k[1:].isdigit()}
